@@ -148,6 +148,15 @@ def rand_global(rng, kind, prof):
     g = {sect: body}
     if rng.random() < 0.3:
         g['nosuch'] = {'snippets': {'p': 'decoy'}}
+    if rng.random() < 0.3:
+        # BOTH the type section and the syntax section, setting the same keys to different values, written in either order (a settings file with
+        # sorted keys has the syntax first): equal dictionaries are equal arguments
+        typ, syn = ('stylesheet', prof.get('syntax', 'css')) if kind == 'stylesheet' else ('markup', prof.get('syntax', 'html'))
+        if kind == 'stylesheet':
+            a, b = {'options': {'stylesheet.intUnit': 'ty', 'stylesheet.between': ' :t: '}, 'snippets': {'zz': 'zed-t:1'}}, {'options': {'stylesheet.intUnit': 'sy', 'stylesheet.between': ' :s: '}, 'snippets': {'zz': 'zed-s:2'}}
+        else:
+            a, b = {'options': {'output.indent': '..', 'output.tagCase': 'upper'}, 'snippets': {'vs': 'x-t'}, 'variables': {'lang': 'ty'}}, {'options': {'output.indent': '____', 'output.tagCase': 'lower'}, 'snippets': {'vs': 'x-s'}, 'variables': {'lang': 'sy'}}
+        g = {typ: a, syn: b} if rng.random() < 0.5 else {syn: b, typ: a}
     return g
 
 
@@ -247,15 +256,28 @@ class FieldBomb:
         return placeholder
 
 
-def materialize(spec, caches, use_cache=True):
+def reordered(o):
+    "an equal object whose dictionaries list their keys the other way round"
+    if isinstance(o, dict):
+        return {k: reordered(o[k]) for k in reversed(list(o))}
+    if isinstance(o, list):
+        return [reordered(x) for x in o]
+    return o
+
+
+def materialize(spec, caches, use_cache=True, other_key_order=False):
     import emmet
     from emmet.config import Config
     user = copy.deepcopy(spec['user'])
+    if other_key_order:
+        user = reordered(user)
     if spec['cache'] and use_cache:
         user['cache'] = caches.setdefault(spec['cache'], {})
     if spec.get('raising_field_at') is not None:
         user.setdefault('options', {})['output.field'] = FieldBomb(spec['raising_field_at'])
     glob = copy.deepcopy(spec.get('global'))
+    if other_key_order:
+        glob = reordered(glob)
     if spec['as_config']:
         return (Config(user, glob) if glob is not None else Config(user), None)
     return (user, glob)
@@ -322,7 +344,8 @@ def child_pristine(h):
     p = h['probe']
     spec = dict(h['slots'][p['slot']], raising_field_at=None)
     res = {}
-    res['fresh_cache'] = outcome(lambda: expand2(p['abbr'], materialize(spec, {}, True)))
+    # (equal arguments: child B builds its dictionaries with the keys in the opposite order)
+    res['fresh_cache'] = outcome(lambda: expand2(p['abbr'], materialize(spec, {}, True, other_key_order=True)))
     return res
 
 
